@@ -2,16 +2,48 @@
 # Generates /verif/MANIFEST.json from the table below. Edit here, not the JSON.
 import json, subprocess
 IDS = ["C%02d" % i for i in range(1, 19)]
-BASE_OFF = ("cd /repo && GOFLAGS=-mod=mod go test -vet=off -count=1 ./... && "
-            "(cd differential && go test -vet=off -count=1 ./... ; true) && (cd benchmarks && go test -vet=off -count=1 -run '^$' ./... ; true)")
+BASE_OFF = "for m in . differential benchmarks; do (cd /repo/$m && GOFLAGS= GOPROXY=off go test -json -vet=off -count=1 ./...); done"
 CHECKS = {}
 def check(id, cat, text, note, technique, ref):
     CHECKS[id] = dict(cat=cat, text=text, note=note, technique=technique, ref=ref)
 
-check("C07", "proof",
-      "Complete static proof: bit-level non-interference of all 90 Set arms, validate-before-write, Get∘Set = id, unused bits stay 0, Set is the only writer. Sufficient for all three sentences of C07 by induction over call sequences.",
+T_AST = "custom static analyser over go/packages + go/types ASTs: "
+check("C01", "other", "Necessary structural conditions of the accepted grammar, checked on every return site, table and path of the four parsers; does not decide the scanner loops.",
+      "Loop invariants of the three hand-written scanners and index-panic freedom are NOT decided (DESIGN §10). Vocabulary oracle transcribed from the specifications.",
+      T_AST + "return-site census, go/cfg path rule (no element skipped, order comparison dominates Set), table comparison with the specification vocabulary", "DESIGN §5 C01")
+check("C02", "other", "Round trip reduced to proved layout facts (C07) plus serializer/parser table agreement; decided for every metric and value.",
+      "The parser loop accepting the emitted string is shared with C01 and not decided.", T_AST + "serializer table extraction, emit-helper summaries, comparison with Set/Get models and the specification order", "DESIGN §5 C02")
+check("C03", "other", "The code evaluates the specification's expressions with the specification's constants on the right inputs: canonical formula trees, weight tables and byte routing all equal the oracle.",
+      "float64 vs real arithmetic is not decided (no clause about rounding of values within 1e-5 of a tenth).", T_AST + "symbolic evaluation of loop-free methods into canonical formula trees (exact rational literals), known-bits routing of every byte read, weight tables by exhaustive evaluation of the helper switches", "DESIGN §5 C03")
+check("C04", "other", "Every table, predicate, guard and per-EQ term of the MacroVector algorithm equals the specification; EQ predicates and next-lower logic by complete finite tabulation.",
+      "The nested max-vector search and float arithmetic end-to-end are not decided. Lookup oracle is a second-hand copy of FIRST's table (claircore).", T_AST + "complete truth tables of loop-free fragments over metric codes (M7), table extraction, template matching of the interpolation def-use chain", "DESIGN §5 C04")
+check("C05", "other", "As C03 for the v2.0 equations.", "float64 vs real arithmetic and half-way cases not decided.", T_AST + "canonical formula trees, weight tables, known-bits routing", "DESIGN §5 C05")
+check("C06", "other", "Set receives the two halves of the same element on the returned, all-zero-initialised object; code 0 is the not-defined token; Get inverts Set (C07).",
+      "Which elements the loops visit is C01's undecided part.", T_AST + "def-use identity of Set's arguments, literal check, layout model", "DESIGN §5 C06")
+check("C07", "proof", "Complete static proof: bit-level non-interference of all 90 Set arms, validate-before-write, Get∘Set = id, unused bits stay 0, Set is the only writer. Sufficient for all three sentences of C07 by induction over call sequences.",
       "Trusted: go/types constant evaluation, the M3 transfer functions for uint8 & | ^ << >> (checker/bits.go), Go's memory safety (no unsafe/reflect on the struct; checked by census).",
-      "custom static analyser (go/packages + go/types AST): known-bits abstract interpretation of every Set store and Get decode, cross-arm disjointness", "DESIGN §5 C07")
+      T_AST + "known-bits abstract interpretation of every Set store and Get decode, cross-arm disjointness", "DESIGN §5 C07")
+check("C08", "other", "Canonical form: emission order, prefixes, skip rule and value idempotence decided per metric.", "The set of accepted strings is C01's.", T_AST + "serializer table and skip-condition analysis against the specification order", "DESIGN §5 C08")
+check("C09", "other", "Vocabulary equality with the specification, refusing default arms, and exhaustiveness of every panicking switch/table over the codes that can reach it.",
+      "Index expressions inside parser loops not decided.", T_AST + "table extraction and exhaustive evaluation of helper switches over reachable code ranges", "DESIGN §5 C09")
+check("C10", "proof", "Complete: the environmental scores are functions of effective values only (symbolic trees for v3, complete truth tables for every v4 local and EQ predicate), defaults for undefined metrics equal the specification's, supplemental metrics are never read.",
+      "Trusted: the M3/M7/M8 evaluators of the checker; for v4 the loop nest is covered through the classification of every value passed to severityDistance.", T_AST + "non-interference by symbolic formula trees (v3) and complete finite truth tables over (base, Modified) code pairs (v4)", "DESIGN §5 C10")
+check("C11", "other", "Every score return is rounded or 0, rounding bodies end in /10 of an integer-valued float, v3 caps, lookup literals one-decimal in [0,10], no reachable panic.",
+      "Numeric range of v2/v4 arithmetic and float exactness not decided.", T_AST + "return-leaf analysis of the canonical trees, table checks", "DESIGN §5 C11")
+check("C12", "other", "Necessary table monotonicity: v4 lookup along all 945 next-lower edges, all v2/v3 weight tables, v4 severity orders.",
+      "Monotonicity of interpolation and rounding not decided.", T_AST + "order checks over extracted tables against the specification severity orders", "DESIGN §5 C12")
+check("C13", "other", "Headers pairwise prefix-incomparable and equal to the specification; header guard is the first statement; v2 starts at 'AV'.",
+      "v2 clause relies on C01's loop.", T_AST + "constant comparison and guard-shape/dominance check", "DESIGN §5 C13")
+check("C14", "other", "Effect analysis: no writes to package-level state, only Set writes through *T, pool typestate, private buffer, concurrency census.",
+      "Go memory model and sync.Pool contract trusted.", "SSA-based effect and typestate analysis (go/ssa): stores rooted at globals or *T parameters, taint of the pooled value, plus AST ownership check of Vector's buffer", "DESIGN §5 C14")
+check("C15", "proof", "Complete for every non-NaN float64: threshold partition into 13 regions per package, decision list evaluated per region, three packages identical.",
+      "NaN unspecified. Trusted: constants are read through go/types as float64 values.", T_AST + "region (threshold-partition) analysis of a comparison-only decision list", "DESIGN §5 C15")
+check("C16", "proof", "Complete: all byte reads are whole-field definedness predicates; 2^15 definedness combinations enumerated against CVSS-B[T][E].",
+      "Relies on C07's layout (premises R07.store/R07.preserve for v4 included).", T_AST + "tested-bit-set analysis plus exhaustive finite enumeration over definedness", "DESIGN §5 C16")
+check("C17", "other", "Compiler escape census with every heap site classified and budgeted; lenVec >= emitted length for every object; no allocating construct or non-allow-listed callee on API paths.",
+      "Decided for the installed toolchains only (go1.23.5 quick; plus go1.26.8 thorough); pool steady state trusted.", "compiler escape analysis (-gcflags=-m) parsed and classified against the AST, exhaustive per-component comparison of lenVec with the serializer table, construct/callee census", "DESIGN §5 C17")
+check("C18", "other", "Census of every error-producing site with its guard kind and documented error value.",
+      "Two sites observed, not asserted (DESIGN §9 O1/O2).", T_AST + "return-site census with guard classification, typed-error construction check, sentinel census", "DESIGN §5 C18")
 
 NOT_YET = {}
 for i in IDS:
